@@ -66,7 +66,7 @@ func acceptedWorkload(c *fw.Ctx, scale int, emit emitFn) {
 		"TYPE @t\n1\n", "TYPE @t\n{\"k\": @u}\nTYPE @u\n{\"l\": @t // {optional: true}\n}\n", "TYPE @t\n[1]\n", "TYPE @t\n\"s\" // {enum: @e}\nENUM @e\n[\"s\", \"t\"]\n",
 		"TYPE @t\n{\"k\": 1}\nTYPE @u\n{\"m\": \"s\"}\nTYPE @base\n{\n  \"x\": @t|@u,\n  \"y\": @t  |  @u,\n  \"z\": @u |@t\n}\nTYPE @d\n{ // {allOf: \"@base\"}\n  \"own\": 1\n}\n",
 		"TYPE @t\n{\"k\": 1}\nTYPE @u\n[1]\nTYPE @base\n{\n  \"x\": @t| @u // {optional: true}\n}\n",
-		"ENUM @e\n[\"x\", \"y\"]\n", "ENUM @e\n[1, 2 // two\n]\n", "TYPE @t\n{\"k\": 1}\nENUM @e\n[\"x\"]\nTYPE @u\n{\"p\": @t}\n"}
+		"ENUM @e\n[\"x\", \"y\"]\n", "ENUM @e\n[]\n", "ENUM @e\n[ # nothing\n]\n", "ENUM @e\n[1, 2 // two\n]\n", "TYPE @t\n{\"k\": 1}\nENUM @e\n[\"x\"]\nTYPE @u\n{\"p\": @t}\n"}
 	pick := func(ss []string) string { return ss[r.Intn(len(ss))] }
 	sch := func() string {
 		if r.Intn(5) == 0 {
@@ -78,7 +78,18 @@ func acceptedWorkload(c *fw.Ctx, scale int, emit emitFn) {
 		var sb strings.Builder
 		sb.WriteString("JSIGHT 0.3\n")
 		sb.WriteString(pick(types))
-		switch r.Intn(9) {
+		switch r.Intn(10) {
+		case 9: // ids that are different but are written the same way (the text of the id is the key in the catalog)
+			switch r.Intn(4) {
+			case 0:
+				sb.WriteString("URL /y\n  Protocol json-rpc-2.0\n  Method \"a /x\"\n    Result\n      1\nURL \"/x /y\"\n  Protocol json-rpc-2.0\n  Method a\n    Result\n      2\n")
+			case 1:
+				sb.WriteString("GET /a\xff\n  200 any\nGET /a\xfe\n  200 any\n")
+			case 2:
+				sb.WriteString("URL /z\n  Protocol json-rpc-2.0\n  Method \"m /z\"\n    Result\n      1\nURL \"/z /z\"\n  Protocol json-rpc-2.0\n  Method m\n    Result\n      2\n  Method \"m \"\n    Result\n      3\n")
+			default:
+				sb.WriteString("GET \"/p q\"\n  200 any\nPOST \"/p q\"\n  200 any\nGET \"/p  q\"\n  200 any\n")
+			}
 		case 0: // Path body at URL level
 			sb.WriteString("URL /a/{id}\n  Path\n    " + sch() + "\n  GET\n    200 any\n")
 		case 1: // Path at method level
